@@ -94,8 +94,8 @@ Proof. unfold finish. destruct (cm x) eqn:E; [exists z; exact E | exists 200; re
 
 Lemma serve_committed et c path ae ops ret err : exists s, cm (serve et c path ae ops ret err) = Some s.
 Proof.
-  unfold serve, server.
-  destruct (chain et c path ae ops ret err st0) as [s e y|y].
+  unfold serve, serve_p, server.
+  destruct (chain_p ([], []) et c path ae ops ret err st0) as [s e y|y].
   - destruct (400 <=? s).
     + destruct (default_error1 et s y); apply fin_committed.
     + apply fin_committed.
@@ -103,10 +103,10 @@ Proof.
 Qed.
 
 (* the directives that do not touch the response are invisible *)
-Lemma serve_transparent et c path ae ops ret err r l m :
+Lemma serve_transparent et c path ae ops ret err r l :
   serve et {| c_reqid := r; c_limits := l; c_log := c_log c; c_rewrite := c_rewrite c; c_gzip := c_gzip c;
-              c_header := c_header c; c_errors := c_errors c; c_status := c_status c; c_mime := m;
-              c_templates := c_templates c |} path ae ops ret err
+              c_header := c_header c; c_errors := c_errors c; c_redir := c_redir c; c_status := c_status c;
+              c_mime := c_mime c; c_internal := c_internal c; c_templates := c_templates c |} path ae ops ret err
   = serve et c path ae ops ret err.
 Proof. destruct c; reflexivity. Qed.
 
@@ -168,8 +168,9 @@ Qed.
 Lemma final_off y : gz_on y = false -> final y = finish y.
 Proof. intro H. unfold final, g_close. rewrite H. reflexivity. Qed.
 
-Definition answered (c : Z) (t : bytes) (gz : bool) (y : st) : Prop :=
-  gz_on y = gz /\ cm (final y) = Some c /\ sup (final y) = 0%nat /\ view (final y) = (false, t).
+Definition answeredn (n : nat) (c : Z) (t : bytes) (gz : bool) (y : st) : Prop :=
+  gz_on y = gz /\ cm (final y) = Some c /\ sup (final y) = n /\ view (final y) = (false, t).
+Notation answered := (answeredn 0%nat).
 
 Lemma view_raw1 x t : hget (csnap x) K_CE = None -> body x = [Raw t] -> view x = (false, t).
 Proof.
@@ -187,7 +188,7 @@ Proof.
 Qed.
 
 Ltac nfinal Hb :=
-  unfold answered, final, g_close; norm; unfold c_wr; norm; rewrite ?Hb; norm; unfold c_wr; norm; rewrite ?Hb; norm;
+  unfold answeredn, final, g_close; norm; unfold c_wr; norm; rewrite ?Hb; norm; unfold c_wr; norm; rewrite ?Hb; norm;
   unfold finish; norm.
 (* writing status + text through the header/gzip wrappers of a fresh stack *)
 Lemma write3 x h' c t :
@@ -272,7 +273,7 @@ Lemma inner_ret m ops ret err x :
   forallb set_ok ops = true -> (300 <=? ret) = true -> b_mode x = TOff -> b_stream x = false ->
   templates_mw m (probe ops ret err) x = HRet ret err (apply_sets ops (enter_templates m x)).
 Proof.
-  intros Hs Hr Hm Hst. unfold templates_mw, templates_on, probe.
+  intros Hs Hr Hm Hst. unfold templates_mw, templates_mw_p, templates_on_p, buf_reset, probe.
   destruct m; cbn [enter_templates]; rewrite (run_sets_only _ _ Hs); [reflexivity| | |];
     rewrite Hr, orb_true_r; cbv iota; unfold b_write_buffered;
     match goal with |- context [b_wrote ?Y && _] =>
@@ -283,7 +284,7 @@ Lemma inner_pan m ops rest ret err x :
   forallb set_ok ops = true ->
   templates_mw m (probe (ops ++ OPanic :: rest) ret err) x = HPan (apply_sets ops (enter_templates m x)).
 Proof.
-  intros Hs. unfold templates_mw, templates_on, probe.
+  intros Hs. unfold templates_mw, templates_mw_p, templates_on_p, buf_reset, probe.
   destruct m; cbn [enter_templates]; rewrite (run_sets _ _ _ Hs); reflexivity.
 Qed.
 
@@ -373,14 +374,38 @@ Proof. destruct act, hd; reflexivity. Qed.
 Lemma entry_b act hd : b_mode (entry act hd) = TOff /\ b_stream (entry act hd) = false.
 Proof. destruct act, hd; split; reflexivity. Qed.
 
+(* the state the directives inside mime are handed *)
+Definition entry3 (act hd : bool) (mm : option bytes) : st := enter_mime mm (entry act hd).
+Lemma fresh_entry3 act hd mm : fresh (entry3 act hd mm).
+Proof. destruct act, hd, mm; unfold fresh; cbn; repeat split; reflexivity. Qed.
+Lemma entry3_gz act hd mm : gz_on (entry3 act hd mm) = act.
+Proof. destruct act, hd, mm; reflexivity. Qed.
+Lemma entry3_b act hd mm : b_mode (entry3 act hd mm) = TOff /\ b_stream (entry3 act hd mm) = false.
+Proof. destruct act, hd, mm; split; reflexivity. Qed.
+Lemma entry3_ce act hd mm : hget (chdr (entry3 act hd mm)) K_CE = None.
+Proof. destruct act, hd, mm; reflexivity. Qed.
+
+(* the directives between errors and templates *)
+Definition mid (rd : bool) (rule : option Z) (mm : option bytes) (it : bool) (T : st -> hres) : st -> hres :=
+  redir_mw rd (status_mw rule (mime_mw mm (internal_mw it T))).
+Lemma mid_pass mm T x : mid false None mm false T x = T (enter_mime mm x).
+Proof. reflexivity. Qed.
+Lemma serve_eq et c path ae ops ret err :
+  serve et c path ae ops ret err =
+  server et (log_mw et (c_log c) (gzip_mw et (c_gzip c && ae) (header_mw (c_header c)
+    (errors_mw et (eff_path c path) (eff_errors c)
+      (mid (redir_hit c path) (status_rule c path) (mime_ct c path) (internal_hit c path)
+        (templates_mw (tmode_of c path) (probe ops ret err))))))).
+Proof. reflexivity. Qed.
+
 (* once something inside gzip has answered and returned 0, the outer layers only close the
    gzip writer and finish the request *)
-Lemma outer_passes et lg act hd (E : st -> hres) r e y c t :
-  E (entry act hd) = HRet r e y -> (400 <=? r) = false -> answered c t act y ->
+Lemma outer_passes_n n et lg act hd (E : st -> hres) r e y c t :
+  E (entry act hd) = HRet r e y -> (400 <=? r) = false -> answeredn n c t act y ->
   let x := server et (log_mw et lg (gzip_mw et act (header_mw hd E))) in
-  cm x = Some c /\ sup x = 0%nat /\ view x = (false, t).
+  cm x = Some c /\ sup x = n /\ view x = (false, t).
 Proof.
-  intros HE Hr (Ag & Ac & As & Av). unfold server, log_mw, log_next, gzip_mw, header_mw.
+  intros HE Hr (Ag & Ac & As & Av). unfold server, log_mw, log_next, gzip_mw, gzip_mw_p, gw_reset, header_mw.
   assert (Eh : (if hd then E (set_chdr (set_h (enter_gzip act st0) true false)
                                  (hset (hdel (chdr (enter_gzip act st0)) K_XDEL) K_XCFG V_CFG))
                 else E (enter_gzip act st0)) = HRet r e y).
@@ -393,6 +418,7 @@ Proof.
     rewrite (final_off y Ag) in *.
     destruct lg; rewrite ?Hr; repeat split; assumption.
 Qed.
+Definition outer_passes := outer_passes_n 0%nat.
 Lemma outer_answered et lg act hd (E : st -> hres) e y c t :
   E (entry act hd) = HRet 0 e y -> answered c t act y ->
   let r := server et (log_mw et lg (gzip_mw et act (header_mw hd E))) in
@@ -406,7 +432,7 @@ Lemma outer_fallback_ret et lg hd (E : st -> hres) ret err x1 :
   let r := server et (log_mw et lg (gzip_mw et false (header_mw hd E))) in
   cm r = Some ret /\ sup r = 0%nat /\ view r = (false, et ret).
 Proof.
-  intros HE F G R1 Hv Hb. unfold server, log_mw, log_next, gzip_mw, header_mw.
+  intros HE F G R1 Hv Hb. unfold server, log_mw, log_next, gzip_mw, gzip_mw_p, gw_reset, header_mw.
   assert (Eh : (if hd then E (set_chdr (set_h st0 true false) (hset (hdel (chdr st0) K_XDEL) K_XCFG V_CFG))
                 else E st0) = HRet ret err x1).
   { rewrite <- HE. unfold entry, enter_header, enter_gzip. destruct hd; reflexivity. }
@@ -421,7 +447,7 @@ Lemma outer_fallback_pan et lg hd (E : st -> hres) x1 :
   let r := server et (log_mw et lg (gzip_mw et false (header_mw hd E))) in
   cm r = Some 500 /\ sup r = 0%nat /\ view r = (false, et 500).
 Proof.
-  intros HE F G. unfold server, log_mw, log_next, gzip_mw, header_mw.
+  intros HE F G. unfold server, log_mw, log_next, gzip_mw, gzip_mw_p, gw_reset, header_mw.
   assert (Eh : (if hd then E (set_chdr (set_h st0 true false) (hset (hdel (chdr st0) K_XDEL) K_XCFG V_CFG))
                 else E st0) = HPan x1).
   { rewrite <- HE. unfold entry, enter_header, enter_gzip. destruct hd; reflexivity. }
@@ -442,22 +468,25 @@ Proof.
 Qed.
 
 Lemma error_status_gets_body et c path ae ops ret err :
-  forallb set_ok ops = true -> status_rule c path = None -> 400 <= ret <= 999 ->
+  forallb set_ok ops = true -> redir_hit c path = false -> status_rule c path = None -> internal_hit c path = false ->
+  400 <= ret <= 999 ->
   let x := serve et c path ae ops ret err in
   cm x = Some ret /\ sup x = 0%nat /\ view x = (false, expected_error_body et c path ret err).
 Proof.
-  intros Hs Hr Hret.
+  intros Hs Hrd Hr Hit Hret.
   assert (R1 : (400 <=? ret) = true) by lia.
   assert (R2 : (300 <=? ret) = true) by lia.
   assert (Hv : valid_code ret = true) by (unfold valid_code; lia).
   assert (Hb : bodyless ret = false) by (unfold bodyless; lia).
-  unfold serve, chain. rewrite Hr. unfold status_mw.
-  set (act := c_gzip c && ae). set (hd := c_header c). set (m := tmode_of c path).
-  destruct (entry_b act hd) as [Bm Bs].
-  pose proof (inner_ret m ops ret err (entry act hd) Hs R2 Bm Bs) as Hin.
-  set (x1 := apply_sets ops (enter_templates m (entry act hd))) in *.
-  assert (F1 : fresh x1) by (apply fresh_apply_sets; [exact Hs|]; apply fresh_enter; apply fresh_entry).
-  assert (G1 : gz_on x1 = act) by (unfold x1; rewrite gz_on_apply_sets, gz_on_enter; apply entry_gz).
+  rewrite serve_eq, Hrd, Hr, Hit.
+  set (act := c_gzip c && ae). set (hd := c_header c). set (m := tmode_of c path). set (mm := mime_ct c path).
+  destruct (entry3_b act hd mm) as [Bm Bs].
+  pose proof (inner_ret m ops ret err (entry3 act hd mm) Hs R2 Bm Bs) as Hin.
+  set (x1 := apply_sets ops (enter_templates m (entry3 act hd mm))) in *.
+  assert (F1 : fresh x1) by (apply fresh_apply_sets; [exact Hs|]; apply fresh_enter; apply fresh_entry3).
+  assert (G1 : gz_on x1 = act) by (unfold x1; rewrite gz_on_apply_sets, gz_on_enter; apply entry3_gz).
+  change (templates_mw m (probe ops ret err) (entry3 act hd mm))
+    with (mid false None mm false (templates_mw m (probe ops ret err)) (entry act hd)) in Hin.
   destruct (eff_errors c) eqn:Ee.
   - (* no errors directive *)
     destruct (eff_errors_none c Ee) as [Hg He].
@@ -500,17 +529,19 @@ Proof.
 Qed.
 
 Lemma panic_before_write_500 et c path ae ops rest ret err :
-  forallb set_ok ops = true -> status_rule c path = None ->
+  forallb set_ok ops = true -> redir_hit c path = false -> status_rule c path = None -> internal_hit c path = false ->
   let x := serve et c path ae (ops ++ OPanic :: rest) ret err in
   cm x = Some 500 /\ sup x = 0%nat /\ view x = (false, panic_body et c).
 Proof.
-  intros Hs Hr.
-  unfold serve, chain. rewrite Hr. unfold status_mw.
-  set (act := c_gzip c && ae). set (hd := c_header c). set (m := tmode_of c path).
-  pose proof (inner_pan m ops rest ret err (entry act hd) Hs) as Hin.
-  set (x1 := apply_sets ops (enter_templates m (entry act hd))) in *.
-  assert (F1 : fresh x1) by (apply fresh_apply_sets; [exact Hs|]; apply fresh_enter; apply fresh_entry).
-  assert (G1 : gz_on x1 = act) by (unfold x1; rewrite gz_on_apply_sets, gz_on_enter; apply entry_gz).
+  intros Hs Hrd Hr Hit.
+  rewrite serve_eq, Hrd, Hr, Hit.
+  set (act := c_gzip c && ae). set (hd := c_header c). set (m := tmode_of c path). set (mm := mime_ct c path).
+  pose proof (inner_pan m ops rest ret err (entry3 act hd mm) Hs) as Hin.
+  set (x1 := apply_sets ops (enter_templates m (entry3 act hd mm))) in *.
+  assert (F1 : fresh x1) by (apply fresh_apply_sets; [exact Hs|]; apply fresh_enter; apply fresh_entry3).
+  assert (G1 : gz_on x1 = act) by (unfold x1; rewrite gz_on_apply_sets, gz_on_enter; apply entry3_gz).
+  change (templates_mw m (probe (ops ++ OPanic :: rest) ret err) (entry3 act hd mm))
+    with (mid false None mm false (templates_mw m (probe (ops ++ OPanic :: rest) ret err)) (entry act hd)) in Hin.
   unfold panic_body.
   destruct (eff_errors c) eqn:Ee.
   - destruct (eff_errors_none c Ee) as [Hg He].
@@ -527,19 +558,19 @@ Qed.
 
 (* ---------- the status directive answering instead of the inner handlers ---------- *)
 Lemma status_rule_error et c path ae ops ret err s :
-  status_rule c path = Some s -> 400 <= s <= 999 ->
+  redir_hit c path = false -> status_rule c path = Some s -> 400 <= s <= 999 ->
   let x := serve et c path ae ops ret err in
   cm x = Some s /\ sup x = 0%nat /\ view x = (false, expected_error_body et c path s false).
 Proof.
-  intros Hr Hret.
+  intros Hrd Hr Hret.
   assert (R1 : (400 <=? s) = true) by lia.
   assert (R5 : (s <? 400) = false) by lia.
   assert (Hv : valid_code s = true) by (unfold valid_code; lia).
   assert (Hb : bodyless s = false) by (unfold bodyless; lia).
-  unfold serve, chain. rewrite Hr.
+  rewrite serve_eq, Hrd, Hr.
   set (act := c_gzip c && ae). set (hd := c_header c).
-  set (inner := status_mw (Some s) (templates_mw (tmode_of c path) (probe ops ret err))).
-  assert (Hin : inner (entry act hd) = HRet s false (entry act hd)) by (unfold inner, status_mw; rewrite R5; reflexivity).
+  set (inner := mid false (Some s) (mime_ct c path) (internal_hit c path) (templates_mw (tmode_of c path) (probe ops ret err))).
+  assert (Hin : inner (entry act hd) = HRet s false (entry act hd)) by (unfold inner, mid, redir_mw, status_mw; rewrite R5; reflexivity).
   pose proof (fresh_entry act hd) as F1. pose proof (entry_gz act hd) as G1.
   destruct (eff_errors c) eqn:Ee.
   - destruct (eff_errors_none c Ee) as [Hg He].
@@ -570,14 +601,16 @@ Qed.
 (* ---------- a handler that writes: WriteHeader s, then any number of Writes ---------- *)
 (* invariant of the stack after the header went through header/gzip to the connection and the
    chunks [acc] were written (templates absent or streaming) *)
-Definition Inv3 (c : Z) (acc : list bytes) (y : st) : Prop :=
-  cm y = Some c /\ sup y = 0%nat /\ (h_on y = true -> h_wrote y = true) /\
+Definition Inv3n (n : nat) (c : Z) (acc : list bytes) (y : st) : Prop :=
+  cm y = Some c /\ sup y = n /\ (h_on y = true -> h_wrote y = true) /\
   (b_active y = false \/ (b_wrote y = true /\ b_stream y = true)) /\
   if gz_on y then
     gz_fw y = true /\ gz_comp y = true /\ gz_wrote y = true /\ gz_created y = true /\
     hget (csnap y) K_CE = Some V_GZIP /\ gz_pend y = concat acc /\
     ((gz_hdr_out y = false /\ body y = [] /\ acc = []) \/ (gz_hdr_out y = true /\ body y = [GzHead]))
   else hget (csnap y) K_CE = None /\ body y = map Raw (rev acc).
+
+Notation Inv3 := (Inv3n 0%nat).
 
 Lemma raws_map_raw l : raws (filter nonempty_seg (map Raw l)) = Some (concat l).
 Proof.
@@ -587,9 +620,9 @@ Proof.
   - cbn [filter nonempty_seg raws]. rewrite IH. reflexivity.
 Qed.
 
-Lemma inv3_answered c acc y : bodyless c = false -> Inv3 c acc y -> answered c (concat acc) (gz_on y) y.
+Lemma inv3_answered n c acc y : bodyless c = false -> Inv3n n c acc y -> answeredn n c (concat acc) (gz_on y) y.
 Proof.
-  intros Hb (I1 & I2 & I3 & I4 & I5). unfold answered. split; [reflexivity|].
+  intros Hb (I1 & I2 & I3 & I4 & I5). unfold answeredn. split; [reflexivity|].
   destruct (gz_on y) eqn:G.
   - destruct I5 as (G1 & G2 & G3 & G4 & G5 & G6 & G7).
     unfold final, g_close. rewrite G, G4. cbn [andb].
@@ -612,7 +645,7 @@ Proof.
   unfold b_active in HB. nproj. subst.
   assert (E1 : hget (hdel h' K_XDEL) K_CE = None) by (rewrite hget_hdel, ce_xdel; exact Hce).
   destruct gon, hon; nlay E1 Hce Hv Hv; nlay E1 Hce Hv Hv;
-    (eexists; split; [reflexivity|]); (split; [|split; reflexivity]); unfold Inv3, b_active; norm;
+    (eexists; split; [reflexivity|]); (split; [|split; reflexivity]); unfold Inv3n, b_active; norm;
     (split; [reflexivity|]); (split; [reflexivity|]); (split; [auto|]); (split; [exact HB|]).
   - repeat split; try reflexivity; try (hsimp; reflexivity); left; auto.
   - repeat split; try reflexivity; try (hsimp; reflexivity); left; auto.
@@ -620,9 +653,9 @@ Proof.
   - split; [exact Hce | reflexivity].
 Qed.
 
-Lemma inv3_write c acc y b :
-  bodyless c = false -> Inv3 c acc y ->
-  exists y', b_wr b y = Done y' /\ Inv3 c (acc ++ [b]) y' /\ gz_on y' = gz_on y /\ b_mode y' = b_mode y.
+Lemma inv3_write n c acc y b :
+  bodyless c = false -> Inv3n n c acc y ->
+  exists y', b_wr b y = Done y' /\ Inv3n n c (acc ++ [b]) y' /\ gz_on y' = gz_on y /\ b_mode y' = b_mode y.
 Proof.
   intros Hb (I1 & I2 & I3 & I4 & I5).
   assert (Hbw : b_wr b y = h_wr b y).
@@ -636,30 +669,30 @@ Proof.
     destruct G7 as [(H1 & H2 & H3) | (H1 & H2)]; subst;
     destruct hon; [rewrite (I3 eq_refl) | | rewrite (I3 eq_refl) | ];
       nlay Hb Hb Hb Hb; nlay Hb Hb Hb Hb;
-      (eexists; split; [reflexivity|]); (split; [|split; reflexivity]); unfold Inv3, b_active; norm;
+      (eexists; split; [reflexivity|]); (split; [|split; reflexivity]); unfold Inv3n, b_active; norm;
       (split; [reflexivity|]); (split; [reflexivity|]); (split; [auto|]); (split; [exact I4|]);
       repeat split; auto; try (rewrite concat_app; cbn [concat]; rewrite app_nil_r; reflexivity).
   - destruct I5 as (G5 & G6). subst.
     destruct hon; [rewrite (I3 eq_refl) | ];
       nlay Hb Hb Hb Hb; nlay Hb Hb Hb Hb;
-      (eexists; split; [reflexivity|]); (split; [|split; reflexivity]); unfold Inv3, b_active; norm;
+      (eexists; split; [reflexivity|]); (split; [|split; reflexivity]); unfold Inv3n, b_active; norm;
       (split; [reflexivity|]); (split; [reflexivity|]); (split; [auto|]); (split; [exact I4|]);
       (split; [exact G5|]); rewrite rev_app_distr; reflexivity.
 Qed.
 
-Lemma inv3_writes c bs : bodyless c = false -> forall acc y, Inv3 c acc y ->
-  exists y', run_script (map OWr bs) y = Done y' /\ Inv3 c (acc ++ bs) y' /\ gz_on y' = gz_on y /\ b_mode y' = b_mode y.
+Lemma inv3_writes n c bs : bodyless c = false -> forall acc y, Inv3n n c acc y ->
+  exists y', run_script (map OWr bs) y = Done y' /\ Inv3n n c (acc ++ bs) y' /\ gz_on y' = gz_on y /\ b_mode y' = b_mode y.
 Proof.
   intro Hb. induction bs as [|b bs IH]; intros acc y I.
   - exists y. rewrite app_nil_r. auto.
-  - destruct (inv3_write c acc y b Hb I) as (y1 & E1 & I1 & G1 & M1).
+  - destruct (inv3_write n c acc y b Hb I) as (y1 & E1 & I1 & G1 & M1).
     destruct (IH (acc ++ [b]) y1 I1) as (y2 & E2 & I2 & G2 & M2).
     exists y2. cbn [map run_script step]. rewrite E1. cbn [bnd]. rewrite E2.
     rewrite <- app_assoc in I2. cbn in I2. split; [reflexivity|]. split; [exact I2|]. split; congruence.
 Qed.
 
 (* a Flush after the header went out changes nothing: the compressor is not flushed *)
-Lemma inv3_fl c acc y : Inv3 c acc y -> step OFl y = Done y.
+Lemma inv3_fl n c acc y : Inv3n n c acc y -> step OFl y = Done y.
 Proof.
   intros (I1 & I2 & I3 & I4 & I5). cbn [step].
   assert (Hg : g_fl y = Done y).
@@ -673,20 +706,20 @@ Proof.
   rewrite I4. cbn [bnd]. rewrite I4'. destruct (b_active y); exact Hh.
 Qed.
 
-Lemma inv3_wops c ws : bodyless c = false -> forall acc y, Inv3 c acc y ->
-  exists y' acc', run_script (map wop_op ws) y = Done y' /\ Inv3 c acc' y' /\
+Lemma inv3_wops n c ws : bodyless c = false -> forall acc y, Inv3n n c acc y ->
+  exists y' acc', run_script (map wop_op ws) y = Done y' /\ Inv3n n c acc' y' /\
                   concat acc' = concat acc ++ wbody ws /\ gz_on y' = gz_on y /\ b_mode y' = b_mode y.
 Proof.
   intro Hb. induction ws as [|w ws IH]; intros acc y I.
   - exists y, acc. unfold wbody. cbn [map concat]. rewrite app_nil_r. auto.
   - destruct w as [b|].
-    + destruct (inv3_write c acc y b Hb I) as (y1 & E1 & I1 & G1 & M1).
+    + destruct (inv3_write n c acc y b Hb I) as (y1 & E1 & I1 & G1 & M1).
       destruct (IH (acc ++ [b]) y1 I1) as (y2 & acc2 & E2 & I2 & C2 & G2 & M2).
       exists y2, acc2. cbn [map wop_op run_script step]. rewrite E1. cbn [bnd]. rewrite E2.
       split; [reflexivity|]. split; [exact I2|]. split; [|split; congruence].
       rewrite C2. rewrite concat_app. unfold wbody. cbn [map wop_bytes concat]. rewrite app_nil_r, <- app_assoc. reflexivity.
     + destruct (IH acc y I) as (y2 & acc2 & E2 & I2 & C2 & G2 & M2).
-      exists y2, acc2. cbn [map wop_op run_script]. rewrite (inv3_fl c acc y I). cbn [bnd]. rewrite E2.
+      exists y2, acc2. cbn [map wop_op run_script]. rewrite (inv3_fl n c acc y I). cbn [bnd]. rewrite E2.
       split; [reflexivity|]. split; [exact I2|]. split; [|split; assumption].
       rewrite C2. unfold wbody. cbn [map wop_bytes concat app]. reflexivity.
 Qed.
@@ -713,35 +746,35 @@ Proof. destruct x; reflexivity. Qed.
 (* WriteHeader s + Writes, templates absent or deciding not to buffer: the response goes out
    as written *)
 Lemma written_streamed et c path ae sets s ws ret err :
-  forallb set_ok sets = true -> status_rule c path = None ->
+  forallb set_ok sets = true -> redir_hit c path = false -> status_rule c path = None -> internal_hit c path = false ->
   valid_code s = true -> bodyless s = false -> ret < 400 ->
   should_buffer (tmode_of c path) (hs_fun sets []) = false ->
   let x := serve et c path ae (sets ++ OWh s :: map wop_op ws) ret err in
   cm x = Some s /\ sup x = 0%nat /\ view x = (false, wbody ws).
 Proof.
-  intros Hs Hr Hv Hb Hret Hsb.
+  intros Hs Hrd Hr Hit Hv Hb Hret Hsb.
   assert (R1 : (400 <=? ret) = false) by lia.
-  unfold serve, chain. rewrite Hr. unfold status_mw.
-  set (act := c_gzip c && ae). set (hd := c_header c). set (m := tmode_of c path) in *.
-  destruct (entry_b act hd) as [Bm Bs].
-  pose proof (fresh_entry act hd) as F0. pose proof (entry_gz act hd) as G0.
+  rewrite serve_eq, Hrd, Hr, Hit.
+  set (act := c_gzip c && ae). set (hd := c_header c). set (m := tmode_of c path) in *. set (mm := mime_ct c path).
+  destruct (entry3_b act hd mm) as [Bm Bs].
+  pose proof (fresh_entry3 act hd mm) as F0. pose proof (entry3_gz act hd mm) as G0.
   (* the script up to and including the writes *)
-  assert (Hscript : exists y, templates_mw m (probe (sets ++ OWh s :: map wop_op ws) ret err) (entry act hd) = HRet ret err y
+  assert (Hscript : exists y, templates_mw m (probe (sets ++ OWh s :: map wop_op ws) ret err) (entry3 act hd mm) = HRet ret err y
                               /\ answered s (wbody ws) act y).
-  { unfold templates_mw, templates_on, probe. destruct m eqn:Em.
+  { unfold templates_mw, templates_mw_p, templates_on_p, buf_reset, probe. destruct m eqn:Em.
     - (* no templates *)
       rewrite (run_sets _ _ _ Hs). rewrite (apply_sets_off _ _ Bm).
       cbn [run_script step]. unfold b_wh.
-      assert (Ba : b_active (set_chdr (entry act hd) (hs_fun sets (chdr (entry act hd)))) = false).
-      { unfold b_active. destruct act, hd; reflexivity. }
+      assert (Ba : b_active (set_chdr (entry3 act hd mm) (hs_fun sets (chdr (entry3 act hd mm)))) = false).
+      { unfold b_active. destruct act, hd, mm; reflexivity. }
       rewrite Ba.
-      destruct (inv3_commit (entry act hd) (hs_fun sets (chdr (entry act hd))) s F0) as (y0 & E0 & I0 & Gy0 & My0); try assumption.
+      destruct (inv3_commit (entry3 act hd mm) (hs_fun sets (chdr (entry3 act hd mm))) s F0) as (y0 & E0 & I0 & Gy0 & My0); try assumption.
       { rewrite (hs_fun_ce _ _ Hs). destruct F0 as (_&_&_&_&_&_&_&_&_&F10). exact F10. }
       { left. unfold b_active. rewrite Bm. reflexivity. }
       rewrite E0. cbn [bnd].
-      destruct (inv3_wops s ws Hb [] y0 I0) as (y1 & acc1 & E1 & I1 & C1 & Gy1 & My1).
+      destruct (inv3_wops 0%nat s ws Hb [] y0 I0) as (y1 & acc1 & E1 & I1 & C1 & Gy1 & My1).
       rewrite E1. exists y1. split; [reflexivity|].
-      pose proof (inv3_answered s acc1 y1 Hb I1) as A. rewrite C1 in A. cbn [concat app] in A.
+      pose proof (inv3_answered 0%nat s acc1 y1 Hb I1) as A. rewrite C1 in A. cbn [concat app] in A.
       replace act with (gz_on y1) by congruence. exact A.
     - (* TExt always buffers *) discriminate Hsb.
     - (* by content type, not html *)
@@ -751,40 +784,41 @@ Proof.
       match goal with |- context [h_wh s (set_chdr ?X ?H)] =>
         assert (FX : fresh X) by (apply fresh_set_b; apply fresh_set_b; exact F0);
         assert (HX : hget H K_CE = None)
-          by (rewrite hget_hcopy_none; [destruct act, hd; reflexivity | rewrite (hs_fun_ce _ _ Hs); reflexivity]);
+          by (rewrite hget_hcopy_none; [destruct act, hd, mm; reflexivity | rewrite (hs_fun_ce _ _ Hs); reflexivity]);
         assert (BX : b_active X = false \/ (b_wrote X = true /\ b_stream X = true)) by (right; split; reflexivity);
         destruct (inv3_commit X H s FX HX Hv BX) as (y0 & E0 & I0 & Gy0 & My0) end.
       rewrite E0. cbn [bnd].
-      destruct (inv3_wops s ws Hb [] y0 I0) as (y1 & acc1 & E1 & I1 & C1 & Gy1 & My1).
+      destruct (inv3_wops 0%nat s ws Hb [] y0 I0) as (y1 & acc1 & E1 & I1 & C1 & Gy1 & My1).
       rewrite E1.
       assert (St : b_stream y1 = true).
       { destruct I1 as (_ & _ & _ & [Q|[_ Q]] & _); [|exact Q].
         unfold b_active in Q. rewrite My1, My0 in Q. discriminate Q. }
       rewrite St. cbn [orb]. rewrite (b_write_buffered_stream _ St).
       exists y1. split; [destruct (ret <? 400); reflexivity|].
-      pose proof (inv3_answered s acc1 y1 Hb I1) as A. rewrite C1 in A. cbn [concat app] in A.
-      replace act with (gz_on y1); [exact A|]. rewrite Gy1, Gy0. destruct act, hd; reflexivity.
+      pose proof (inv3_answered 0%nat s acc1 y1 Hb I1) as A. rewrite C1 in A. cbn [concat app] in A.
+      replace act with (gz_on y1); [exact A|]. rewrite Gy1, Gy0. destruct act, hd, mm; reflexivity.
     - (* extension does not match *)
       rewrite (run_sets _ _ _ Hs). rewrite apply_sets_templates by discriminate.
       cbn [run_script step]. unfold b_wh. cbn [b_active b_mode set_b b_wrote b_hdr should_buffer negb].
       match goal with |- context [h_wh s (set_chdr ?X ?H)] =>
         assert (FX : fresh X) by (apply fresh_set_b; apply fresh_set_b; exact F0);
         assert (HX : hget H K_CE = None)
-          by (rewrite hget_hcopy_none; [destruct act, hd; reflexivity | rewrite (hs_fun_ce _ _ Hs); reflexivity]);
+          by (rewrite hget_hcopy_none; [destruct act, hd, mm; reflexivity | rewrite (hs_fun_ce _ _ Hs); reflexivity]);
         assert (BX : b_active X = false \/ (b_wrote X = true /\ b_stream X = true)) by (right; split; reflexivity);
         destruct (inv3_commit X H s FX HX Hv BX) as (y0 & E0 & I0 & Gy0 & My0) end.
       rewrite E0. cbn [bnd].
-      destruct (inv3_wops s ws Hb [] y0 I0) as (y1 & acc1 & E1 & I1 & C1 & Gy1 & My1).
+      destruct (inv3_wops 0%nat s ws Hb [] y0 I0) as (y1 & acc1 & E1 & I1 & C1 & Gy1 & My1).
       rewrite E1.
       assert (St : b_stream y1 = true).
       { destruct I1 as (_ & _ & _ & [Q|[_ Q]] & _); [|exact Q].
         unfold b_active in Q. rewrite My1, My0 in Q. discriminate Q. }
       rewrite St. cbn [orb]. rewrite (b_write_buffered_stream _ St).
       exists y1. split; [destruct (ret <? 400); reflexivity|].
-      pose proof (inv3_answered s acc1 y1 Hb I1) as A. rewrite C1 in A. cbn [concat app] in A.
-      replace act with (gz_on y1); [exact A|]. rewrite Gy1, Gy0. destruct act, hd; reflexivity. }
+      pose proof (inv3_answered 0%nat s acc1 y1 Hb I1) as A. rewrite C1 in A. cbn [concat app] in A.
+      replace act with (gz_on y1); [exact A|]. rewrite Gy1, Gy0. destruct act, hd, mm; reflexivity. }
   destruct Hscript as (y & Hy & A).
-  pose proof (errors_pass et (eff_path c path) (eff_errors c) _ _ ret err y Hy R1) as He.
+  pose proof (errors_pass et (eff_path c path) (eff_errors c)
+                (mid false None mm false (templates_mw m (probe (sets ++ OWh s :: map wop_op ws) ret err))) (entry act hd) ret err y Hy R1) as He.
   exact (outer_passes et (c_log c) act hd _ ret err y s _ He R1 A).
 Qed.
 
@@ -841,29 +875,29 @@ Proof.
 Qed.
 
 Lemma written_buffered et c path ae sets s ws ret err :
-  forallb set_ok sets = true -> status_rule c path = None ->
+  forallb set_ok sets = true -> redir_hit c path = false -> status_rule c path = None -> internal_hit c path = false ->
   valid_code s = true -> bodyless s = false -> ret < 400 ->
   should_buffer (tmode_of c path) (hs_fun sets []) = true ->
   (ret < 300 -> err = false -> contains (wbody ws) TPL_OPEN = false) ->
   let x := serve et c path ae (sets ++ OWh s :: map wop_op ws) ret err in
   cm x = Some s /\ sup x = 0%nat /\ view x = (false, wbody ws).
 Proof.
-  intros Hs Hr Hv Hb Hret Hsb Htpl.
+  intros Hs Hrd Hr Hit Hv Hb Hret Hsb Htpl.
   assert (R4 : (400 <=? ret) = false) by lia.
   assert (R5 : (ret <? 400) = true) by lia.
-  unfold serve, chain. rewrite Hr. unfold status_mw.
-  set (act := c_gzip c && ae). set (hd := c_header c). set (m := tmode_of c path) in *.
-  pose proof (fresh_entry act hd) as F0. pose proof (entry_gz act hd) as G0.
+  rewrite serve_eq, Hrd, Hr, Hit.
+  set (act := c_gzip c && ae). set (hd := c_header c). set (m := tmode_of c path) in *. set (mm := mime_ct c path).
+  pose proof (fresh_entry3 act hd mm) as F0. pose proof (entry3_gz act hd mm) as G0.
   assert (Hm : m <> TOff) by (intro Q; rewrite Q in Hsb; discriminate Hsb).
-  assert (Hscript : exists r e y, templates_mw m (probe (sets ++ OWh s :: map wop_op ws) ret err) (entry act hd) = HRet r e y
+  assert (Hscript : exists r e y, templates_mw m (probe (sets ++ OWh s :: map wop_op ws) ret err) (entry3 act hd mm) = HRet r e y
                               /\ (400 <=? r) = false /\ answered s (wbody ws) act y).
-  { rewrite (templates_mw_on _ _ _ Hm). unfold templates_on.
-    rewrite (probe_buffered m sets s ws ret err (entry act hd) Hm Hs Hsb).
+  { rewrite (templates_mw_on _ _ _ Hm). unfold templates_on, templates_on_p, buf_reset.
+    rewrite (probe_buffered m sets s ws ret err (entry3 act hd mm) Hm Hs Hsb).
     set (Y := set_b _ m true false s (hs_fun sets []) (wbody ws)).
     assert (FY : fresh Y) by (unfold Y; apply fresh_set_b; exact F0).
-    assert (GY : gz_on Y = act) by (unfold Y; destruct act, hd; reflexivity).
+    assert (GY : gz_on Y = act) by (unfold Y; destruct act, hd, mm; reflexivity).
     assert (HC : hget (hcopy (hs_fun sets []) (chdr Y)) K_CE = None)
-      by (rewrite hget_hcopy_none; [destruct act, hd; reflexivity | rewrite (hs_fun_ce _ _ Hs); reflexivity]).
+      by (rewrite hget_hcopy_none; [destruct act, hd, mm; reflexivity | rewrite (hs_fun_ce _ _ Hs); reflexivity]).
     replace (b_stream Y) with false by reflexivity.
     replace (b_buf Y) with (wbody ws) by reflexivity.
     replace (b_status Y) with s by reflexivity.
@@ -888,23 +922,24 @@ Proof.
       destruct (buffered_out Y h3 s (wbody ws) FY H3 Hv Hb) as (z & Ez & Az).
       cbv zeta. fold h3. rewrite Ez. exists 0, false, z. rewrite GY in Az. auto. }
   destruct Hscript as (r & e & y & Hy & R & A).
-  pose proof (errors_pass et (eff_path c path) (eff_errors c) _ _ r e y Hy R) as He.
+  pose proof (errors_pass et (eff_path c path) (eff_errors c)
+                (mid false None mm false (templates_mw m (probe (sets ++ OWh s :: map wop_op ws) ret err))) (entry act hd) r e y Hy R) as He.
   exact (outer_passes et (c_log c) act hd _ r e y s _ He R A).
 Qed.
 
 (* ---------- the full statement for written responses ---------- *)
 Lemma written_response_unaltered et c path ae sets s ws ret err :
-  forallb set_ok sets = true -> status_rule c path = None ->
+  forallb set_ok sets = true -> redir_hit c path = false -> status_rule c path = None -> internal_hit c path = false ->
   valid_code s = true -> bodyless s = false -> ret < 400 ->
   (should_buffer (tmode_of c path) (hs_fun sets []) = true -> ret < 300 -> err = false ->
    contains (wbody ws) TPL_OPEN = false) ->
   let x := serve et c path ae (sets ++ OWh s :: map wop_op ws) ret err in
   cm x = Some s /\ sup x = 0%nat /\ view x = (false, wbody ws).
 Proof.
-  intros Hs Hr Hv Hb Hret Htpl.
+  intros Hs Hrd Hr Hit Hv Hb Hret Htpl.
   destruct (should_buffer (tmode_of c path) (hs_fun sets [])) eqn:A.
-  - exact (written_buffered et c path ae sets s ws ret err Hs Hr Hv Hb Hret A (Htpl eq_refl)).
-  - exact (written_streamed et c path ae sets s ws ret err Hs Hr Hv Hb Hret A).
+  - exact (written_buffered et c path ae sets s ws ret err Hs Hrd Hr Hit Hv Hb Hret A (Htpl eq_refl)).
+  - exact (written_streamed et c path ae sets s ws ret err Hs Hrd Hr Hit Hv Hb Hret A).
 Qed.
 
 (* ---------- a handler that writes or flushes without calling WriteHeader ---------- *)
@@ -1055,45 +1090,54 @@ Qed.
 
 (* what the layers outside templates do only depends on what the inner handlers do on the
    writer stack they are handed *)
-Lemma outer_ext et ep lg act hd em rule (T1 T2 : st -> hres) :
-  T1 (entry act hd) = T2 (entry act hd) ->
-  server et (log_mw et lg (gzip_mw et act (header_mw hd (errors_mw et ep em (status_mw rule T1))))) =
-  server et (log_mw et lg (gzip_mw et act (header_mw hd (errors_mw et ep em (status_mw rule T2))))).
+Lemma outer_ext et ep lg act hd em rd rule mm it (T1 T2 : st -> hres) :
+  T1 (entry3 act hd mm) = T2 (entry3 act hd mm) ->
+  server et (log_mw et lg (gzip_mw et act (header_mw hd (errors_mw et ep em (mid rd rule mm it T1))))) =
+  server et (log_mw et lg (gzip_mw et act (header_mw hd (errors_mw et ep em (mid rd rule mm it T2))))).
 Proof.
   intro H.
-  assert (E : errors_mw et ep em (status_mw rule T1) (entry act hd) = errors_mw et ep em (status_mw rule T2) (entry act hd)).
-  { unfold errors_mw, status_mw. destruct rule; [reflexivity|]. rewrite H. reflexivity. }
-  unfold server, log_mw, log_next, gzip_mw, header_mw.
+  assert (E : errors_mw et ep em (mid rd rule mm it T1) (entry act hd) = errors_mw et ep em (mid rd rule mm it T2) (entry act hd)).
+  { unfold errors_mw, mid, redir_mw, status_mw, mime_mw, internal_mw.
+    destruct rd; [reflexivity|]. destruct rule; [reflexivity|]. destruct it; [reflexivity|].
+    unfold entry3 in H. rewrite H. reflexivity. }
+  unfold server, log_mw, log_next, gzip_mw, gzip_mw_p, gw_reset, header_mw.
   destruct act, hd; unfold entry, enter_header, enter_gzip in E; rewrite E; reflexivity.
+Qed.
+
+(* a first Write or Flush, whatever follows it *)
+Lemma serve_implicit_any et c path ae sets w rest ret err :
+  forallb set_ok sets = true ->
+  serve et c path ae (sets ++ wop_op w :: rest) ret err =
+  serve et c path ae (sets ++ OWh 200 :: wop_op w :: rest) ret err.
+Proof.
+  intro Hs. rewrite !serve_eq. apply outer_ext.
+  set (act := c_gzip c && ae). set (hd := c_header c). set (m := tmode_of c path). set (mm := mime_ct c path).
+  pose proof (fresh_entry3 act hd mm) as F0.
+  assert (F1 : fresh (apply_sets sets (enter_templates m (entry3 act hd mm))))
+    by (apply fresh_apply_sets; [exact Hs|]; apply fresh_enter; exact F0).
+  assert (W1 : b_wrote (apply_sets sets (enter_templates m (entry3 act hd mm))) = false)
+    by (unfold apply_sets; destruct m, act, hd, mm; reflexivity).
+  destruct F1 as (C1 & _ & _ & C4 & _ & _ & _ & _ & C9 & _).
+  assert (R : run_script (sets ++ wop_op w :: rest) (enter_templates m (entry3 act hd mm)) =
+              run_script (sets ++ OWh 200 :: wop_op w :: rest) (enter_templates m (entry3 act hd mm))).
+  { rewrite !(run_sets _ _ _ Hs). apply run_implicit; intros _; assumption. }
+  unfold templates_mw, templates_mw_p, templates_on_p, buf_reset, probe.
+  destruct m; cbn [enter_templates] in R; rewrite R; reflexivity.
 Qed.
 
 Lemma serve_implicit_header et c path ae sets w ws ret err :
   forallb set_ok sets = true ->
   serve et c path ae (sets ++ map wop_op (w :: ws)) ret err =
   serve et c path ae (sets ++ OWh 200 :: map wop_op (w :: ws)) ret err.
-Proof.
-  intro Hs. unfold serve, chain. apply outer_ext.
-  set (act := c_gzip c && ae). set (hd := c_header c). set (m := tmode_of c path).
-  pose proof (fresh_entry act hd) as F0.
-  assert (F1 : fresh (apply_sets sets (enter_templates m (entry act hd))))
-    by (apply fresh_apply_sets; [exact Hs|]; apply fresh_enter; exact F0).
-  assert (W1 : b_wrote (apply_sets sets (enter_templates m (entry act hd))) = false)
-    by (unfold apply_sets; destruct m, act, hd; reflexivity).
-  destruct F1 as (C1 & _ & _ & C4 & _ & _ & _ & _ & C9 & _).
-  assert (R : run_script (sets ++ map wop_op (w :: ws)) (enter_templates m (entry act hd)) =
-              run_script (sets ++ OWh 200 :: map wop_op (w :: ws)) (enter_templates m (entry act hd))).
-  { rewrite !(run_sets _ _ _ Hs). cbn [map]. apply run_implicit; intros _; assumption. }
-  unfold templates_mw, templates_on, probe.
-  destruct m; cbn [enter_templates] in R; rewrite R; reflexivity.
-Qed.
+Proof. intro Hs. cbn [map]. apply serve_implicit_any. exact Hs. Qed.
 
 Lemma implicit_response_unaltered et c path ae sets w ws ret err :
-  forallb set_ok sets = true -> status_rule c path = None -> ret < 400 ->
+  forallb set_ok sets = true -> redir_hit c path = false -> status_rule c path = None -> internal_hit c path = false -> ret < 400 ->
   (should_buffer (tmode_of c path) (hs_fun sets []) = true -> ret < 300 -> err = false ->
    contains (wbody (w :: ws)) TPL_OPEN = false) ->
   let x := serve et c path ae (sets ++ map wop_op (w :: ws)) ret err in
   cm x = Some 200 /\ sup x = 0%nat /\ view x = (false, wbody (w :: ws)).
 Proof.
-  intros Hs Hr Hret Htpl. cbv zeta. rewrite (serve_implicit_header et c path ae sets w ws ret err Hs).
-  exact (written_response_unaltered et c path ae sets 200 (w :: ws) ret err Hs Hr eq_refl eq_refl Hret Htpl).
+  intros Hs Hrd Hr Hit Hret Htpl. cbv zeta. rewrite (serve_implicit_header et c path ae sets w ws ret err Hs).
+  exact (written_response_unaltered et c path ae sets 200 (w :: ws) ret err Hs Hrd Hr Hit eq_refl eq_refl Hret Htpl).
 Qed.
